@@ -472,7 +472,8 @@ class Oracles:
             elif not self.is_injected(pm, raised):
                 w.fail({"C12", "C13"}, "flush/raised-foreign-exception", repr(raised))
             for tm in must + may:
-                tm.may_forget = True
+                if tm.finished():
+                    tm.may_forget = True      # a raising flush may or may not have forgotten what had finished
             self.resolve_forgotten(pm)
             return
         # returned normally: everything finished before the call must be forgotten
@@ -481,8 +482,8 @@ class Oracles:
         for tm in may:
             tm.may_forget = True
         for tm in pm.tasks.values():
-            if not tm.forgotten and tm not in must and self.model_states(pm, tm.tid) != {"R"}:
-                tm.may_forget = True       # finished (or may have finished) during the flush: either
+            if not tm.forgotten and tm not in must and tm.finished():
+                tm.may_forget = True       # finished during the flush: either
         for tm in must:
             got = self.probe_state(pm, tm)
             if got != "U":
